@@ -2212,6 +2212,10 @@ class Node(_protocols.NodeProtocol, _display.PrettyPrintable):
                         f"Supplied output value cannot have a producer when used for initializing a Node. "
                         f"Output: {output}. All outputs: {outputs}"
                     )
+            if len({id(output) for output in outputs}) != len(outputs):
+                raise ValueError(
+                    f"Supplied output values must be distinct. All outputs: {outputs}"
+                )
             result = []
             for i, output in enumerate(outputs):
                 output._producer = self  # pylint: disable=protected-access
